@@ -1,7 +1,446 @@
-//! C06 — stub (not built yet).
+//! C06 — RTR: after any completed exchange the client holds exactly the
+//! server's data.
+//!
+//! The real `rtr::Client` talks to the real `rtr::Server` over in-memory
+//! sockets on a paused-time current-thread runtime. A generated history drives
+//! source updates, notifications, client steps and reconnects; a model of the
+//! client's data is maintained from the recorded `PayloadTarget::apply` calls.
 
 use crate::engine::*;
+use crate::rtrsim::{self, strat, ApplyRec, CapInfo, CapSock, Data, Delta, Item, MemCtl, MemEnd, RecTarget, RefSource, Tm};
+use proptest::prelude::*;
+use rpki::rtr::client::Client;
+use rpki::rtr::server::{NotifySender, Server};
+use rpki::rtr::state::{Serial, State};
+use serde::{Deserialize, Serialize};
+use std::io;
+use std::sync::atomic::{AtomicU32, Ordering};
+use std::sync::{Arc, Mutex};
+use std::time::Duration;
+use tokio::sync::mpsc::UnboundedSender;
+
+pub const RULE: &str = "histories: random history = first connection + vec(op, 1..40) over a reference source (payload sets of \
+route origins v4/v6 with max-len, router keys, ASPAs; start serial anywhere incl. next to 2^32-1; diff window 0..5; timing \
+changing with updates); ops = Update(add/remove/replace ASPA providers/clear/bulk, optional new timing), Notify, \
+ClientStep(optionally with an update fired by the source's iterator in the middle of the response, optionally with a \
+notification fired by a timer task n virtual seconds later), NewConnection{initial \
+version 0|1|2, initial state none|last|stale|foreign session|future serial, server version cap 0|1|2 (proxy answering \
+too-new queries with Error 4), socket buffer 16..65535 bytes}, SetReady. Oracle after every step that returned Ok: exactly \
+one apply; model (recorded announcements/withdrawals applied in order, ASPA keyed by customer, reset starts from empty) \
+restricted to the payload types of the version on the wire == source snapshot at Client::state() restricted likewise; \
+Client::state() names a state the source issued; for version >= 1 timing passed to apply == source timing. Err steps: no \
+apply. Every step must finish within 100000 socket operations and 200000 s of virtual time; a step with a ready source, no \
+stray Serial Notify and no notification timer outstanding must succeed. Non-trivial = history with >=1 update between two successful steps on one connection \
+where the later step is diff-served or a Cache Reset fallback.";
+
+const SETTLE_TURNS: u32 = 400;
+const STEP_BUDGET: u64 = 100_000;
+const STEP_VIRTUAL_SECS: u64 = 200_000;
+
+//------------ case ---------------------------------------------------------------
+
+#[derive(Clone, Debug, Serialize, Deserialize)]
+pub enum InitState {
+    None,
+    /// The state verified after the last successful step (of any connection).
+    Last,
+    /// The state `n` updates before the current one.
+    Stale(u8),
+    Foreign,
+    /// A serial the source has not issued yet (current + n).
+    Future(u8),
+}
+
+#[derive(Clone, Debug, Serialize, Deserialize)]
+pub struct Conn {
+    pub initial_version: u8,
+    pub state: InitState,
+    pub cap: u8,
+    pub bufcap: u16,
+}
+
+#[derive(Clone, Debug, Serialize, Deserialize)]
+pub enum Op {
+    Update { deltas: Vec<Delta>, timing: Option<Tm> },
+    Notify,
+    /// `mid`: update applied by the source while the server iterates the
+    /// response (at item `.0`); does not change timing. `notify_after`: a
+    /// notification fired by a timer task that many virtual seconds after the
+    /// step starts (during the refresh wait, the exchange or a later step).
+    ClientStep {
+        mid: Option<(u8, Vec<Delta>)>,
+        #[serde(default)]
+        notify_after: Option<u32>,
+    },
+    NewConnection(Conn),
+    SetReady(bool),
+}
+
+#[derive(Clone, Debug, Serialize, Deserialize)]
+pub struct Case {
+    pub session: u16,
+    pub start_serial: u32,
+    pub retention: u8,
+    pub flip: bool,
+    pub initial: Vec<Item>,
+    pub timing: Tm,
+    pub first: Conn,
+    pub ops: Vec<Op>,
+}
+
+//------------ live connection ------------------------------------------------------
+
+type Cl = Client<CapSock<MemEnd>, RecTarget>;
+
+struct Live {
+    conn: Conn,
+    ctl: MemCtl,
+    info: Arc<Mutex<CapInfo>>,
+    sock: Option<CapSock<MemEnd>>,
+    client: Option<Cl>,
+    /// Model of the data the client's target holds.
+    model: Data,
+    had_state: bool,
+    ok_steps: u32,
+    dead: bool,
+    update_since_ok: bool,
+}
+
+#[derive(Default)]
+struct Summary {
+    versions: [bool; 3],
+    downgrade: bool,
+    diff: bool,
+    initial_reset: bool,
+    fallback: bool,
+    wrap: bool,
+    notify_woken: bool,
+    notify_during_step: bool,
+    timer_woken: bool,
+    err_step: bool,
+    mid_fired: bool,
+    nontrivial: bool,
+    ok_steps: u32,
+    steps: u32,
+}
+
+async fn connect(tx: &UnboundedSender<Result<MemEnd, io::Error>>, conn: &Conn) -> Result<Live, Fail> {
+    let (s_end, c_end, ctl) = rtrsim::mem_pair(usize::MAX, (conn.bufcap as usize).max(16));
+    tx.send(Ok(s_end)).map_err(|_| Fail::new("server listener gone"))?;
+    rtrsim::settle(&ctl, SETTLE_TURNS).await.map_err(Fail::new)?;
+    let sock = CapSock::new(c_end, conn.cap);
+    let info = sock.info.clone();
+    Ok(Live {
+        conn: conn.clone(),
+        ctl,
+        info,
+        sock: Some(sock),
+        client: None,
+        model: Data::default(),
+        had_state: false,
+        ok_steps: 0,
+        dead: false,
+        update_since_ok: false,
+    })
+}
+
+fn garbage() -> Data {
+    Data::from_items(&[Item::V4 { addr: 0xDEAD_0000, len: 16, max: 16, asn: 666 }])
+}
+
+/// Builds the client of a fresh connection: resolves the initial state against
+/// the source as it is now and gives the model the matching data.
+fn build_client(live: &mut Live, src: &RefSource, last_ok: Option<(u16, u32)>) {
+    let v = live.conn.initial_version.min(live.conn.cap).min(2);
+    let cur = src.current();
+    let session = src.session();
+    let (state, model): (Option<(u16, u32)>, Data) = match live.conn.state {
+        InitState::None => (None, Data::default()),
+        InitState::Last => match last_ok {
+            Some((sess, serial)) => match src.snapshot_at(serial) {
+                Some(s) if sess == session => (Some((sess, serial)), s.data.restricted(v)),
+                _ => (None, Data::default()),
+            },
+            None => (None, Data::default()),
+        },
+        InitState::Stale(n) => match src.back(n.max(1) as usize) {
+            Some(s) => (Some((session, s.serial)), s.data.restricted(v)),
+            None => {
+                // older than anything the source ever issued
+                let serial = cur.serial.wrapping_sub(src.history_len() as u32 + n as u32);
+                (Some((session, serial)), garbage())
+            }
+        },
+        InitState::Foreign => (Some((session ^ 0x5A5A, cur.serial)), garbage()),
+        InitState::Future(n) => (Some((session, cur.serial.wrapping_add(n.max(1) as u32))), garbage()),
+    };
+    live.had_state = state.is_some();
+    live.model = model;
+    let sock = live.sock.take().expect("socket present");
+    live.client = Some(Client::with_initial_version(
+        live.conn.initial_version,
+        sock,
+        RecTarget::default(),
+        state.map(|(s, n)| State::from_parts(s, Serial(n))),
+    ));
+}
+
+fn describe(rec: &ApplyRec) -> String {
+    format!("reset={} {} items timing={:?}", rec.reset, rec.items.len(), rec.timing)
+}
+
+//------------ run ----------------------------------------------------------------------
+
+fn run_history(c: &Case, obs: &mut Obs) -> CheckResult {
+    let r: Result<Summary, Fail> = rtrsim::block_on(true, async {
+        let src = RefSource::new(c.session, c.start_serial, Data::from_items(&c.initial), c.retention as usize, c.timing);
+        src.set_flip(c.flip);
+        let (tx, mut rx) = tokio::sync::mpsc::unbounded_channel::<Result<MemEnd, io::Error>>();
+        let listener = futures_util::stream::poll_fn(move |cx| rx.poll_recv(cx));
+        let mut notify = NotifySender::new();
+        let server = Server::new(listener, notify.clone(), src.clone());
+        let server_task = tokio::spawn(server.run());
+        let mut sum = Summary::default();
+        let mut last_ok: Option<(u16, u32)> = None;
+        let mut ready = true;
+        let timers_started = Arc::new(AtomicU32::new(0));
+        let timers_fired = Arc::new(AtomicU32::new(0));
+        let mut live = connect(&tx, &c.first).await?;
+
+        for (opi, op) in c.ops.iter().enumerate() {
+            match op {
+                Op::Update { deltas, timing } => {
+                    src.update(deltas, *timing);
+                    live.update_since_ok = true;
+                }
+                Op::SetReady(r) => {
+                    ready = *r;
+                    src.set_ready(ready);
+                }
+                Op::Notify => {
+                    notify.notify();
+                    rtrsim::settle(&live.ctl, SETTLE_TURNS).await.map_err(Fail::new)?;
+                }
+                Op::NewConnection(conn) => {
+                    drop(live);
+                    live = connect(&tx, conn).await?;
+                }
+                Op::ClientStep { mid, notify_after } => {
+                    if live.dead {
+                        // what Client::run's caller does after an error: reconnect with the last good state
+                        let conn = Conn { state: InitState::Last, ..live.conn.clone() };
+                        drop(live);
+                        live = connect(&tx, &conn).await?;
+                    }
+                    if live.client.is_none() {
+                        build_client(&mut live, &src, last_ok);
+                    }
+                    let first_step = live.ok_steps == 0;
+                    // Serial Notify PDUs already waiting for the client
+                    let pending = match rtrsim::parse_pdus(&live.ctl.pending_to_client()) {
+                        Ok(p) => p.len() as u32,
+                        Err(_) => 99, // partial PDU in a full buffer
+                    };
+                    let timers_idle = timers_started.load(Ordering::SeqCst) == timers_fired.load(Ordering::SeqCst)
+                        && notify_after.is_none();
+                    let plain = ready && timers_idle && if first_step { pending == 0 } else { pending <= 1 };
+                    let notify_pending = pending > 0;
+                    if let Some(secs) = notify_after {
+                        let mut n = notify.clone();
+                        let fired = timers_fired.clone();
+                        timers_started.fetch_add(1, Ordering::SeqCst);
+                        let secs = *secs as u64;
+                        tokio::spawn(async move {
+                            tokio::time::sleep(Duration::from_secs(secs)).await;
+                            n.notify();
+                            fired.fetch_add(1, Ordering::SeqCst);
+                        });
+                    }
+                    let fired_timers_before = timers_fired.load(Ordering::SeqCst);
+                    if let Some((at, deltas)) = mid {
+                        src.arm(*at as usize, deltas.clone());
+                    }
+                    let fired_before = src.stats().fired;
+                    live.ctl.set_budget(STEP_BUDGET);
+                    let client = live.client.as_mut().unwrap();
+                    let log_before = client.target().log.len();
+                    let res = tokio::time::timeout(Duration::from_secs(STEP_VIRTUAL_SECS), client.step()).await;
+                    sum.steps += 1;
+                    let timer_notified = timers_fired.load(Ordering::SeqCst) > fired_timers_before;
+                    // a mid-response update that found no response to ride on happens now
+                    let fired_in_step = src.stats().fired > fired_before;
+                    if src.fire_armed() || fired_in_step {
+                        live.update_since_ok = true;
+                    }
+                    sum.mid_fired |= fired_in_step;
+                    ensure!(!live.ctl.exhausted(), "op #{}: client step needed more than {} socket operations", opi, STEP_BUDGET);
+                    let res = match res {
+                        Ok(r) => r,
+                        Err(_) => {
+                            return Err(Fail::new(format!(
+                                "op #{}: client step did not finish within {} s of virtual time (both sides parked)", opi, STEP_VIRTUAL_SECS
+                            )))
+                        }
+                    };
+                    let client = live.client.as_ref().unwrap();
+                    let log = &client.target().log;
+                    match res {
+                        Err(e) => {
+                            ensure!(log.len() == log_before, "op #{}: step returned Err({}) but handed an update to the target", opi, e);
+                            ensure_sig!(!plain, "C06:plain-step-failed",
+                                "op #{}: step failed ({:?}: {}) although the source was ready and no stray Serial Notify was in flight", opi, e.kind(), e);
+                            sum.err_step = true;
+                            live.dead = true;
+                        }
+                        Ok(()) => {
+                            ensure!(log.len() == log_before + 1, "op #{}: successful step applied {} updates", opi, log.len() - log_before);
+                            let rec = log.last().unwrap().clone();
+                            rtrsim::apply_rec(&mut live.model, &rec);
+                            let info = live.info.lock().unwrap().clone();
+                            let v = info.last_forwarded_version
+                                .ok_or_else(|| Fail::new(format!("op #{}: step succeeded without any query reaching the server", opi)))?;
+                            ensure!(v <= 2 && v <= live.conn.cap && v <= live.conn.initial_version,
+                                "op #{}: query version {} on a connection with initial version {} and server cap {}", opi, v, live.conn.initial_version, live.conn.cap);
+                            let st = client.state()
+                                .ok_or_else(|| Fail::new(format!("op #{}: Client::state() is None after a successful step", opi)))?;
+                            let (sess, serial) = (st.session(), u32::from(st.serial()));
+                            ensure!(sess == src.session(), "op #{}: client session {} != source session {}", opi, sess, src.session());
+                            let snap = src.snapshot_at(serial).ok_or_else(|| {
+                                Fail::new(format!("op #{}: Client::state() names serial {} which the source never issued (current {})", opi, serial, src.current().serial))
+                            })?;
+                            let have = live.model.restricted(v);
+                            let want = snap.data.restricted(v);
+                            ensure!(have == want,
+                                "op #{}: version {} step ({}): client data after applying the update differs from the source's set for serial {}: \
+only client: {:?}; only source: {:?}", opi, v, describe(&rec), serial, have.diff_to(&want).iter().filter(|x| !x.1).collect::<Vec<_>>(),
+                                have.diff_to(&want).iter().filter(|x| x.1).collect::<Vec<_>>());
+                            if v >= 1 {
+                                ensure!(rec.timing == src.timing_now(),
+                                    "op #{}: version {} step: timing handed to the target {:?} != source timing {:?}", opi, v, rec.timing, src.timing_now());
+                            }
+                            // bookkeeping
+                            sum.ok_steps += 1;
+                            sum.versions[v as usize] = true;
+                            sum.downgrade |= v < live.conn.initial_version.min(2);
+                            let fallback = rec.reset && (live.had_state || live.ok_steps > 0);
+                            sum.diff |= !rec.reset;
+                            sum.fallback |= fallback;
+                            sum.initial_reset |= rec.reset && !fallback;
+                            sum.wrap |= serial < c.start_serial;
+                            if !first_step {
+                                if notify_pending { sum.notify_woken = true } else if timer_notified { sum.notify_during_step = true } else { sum.timer_woken = true }
+                            }
+                            if live.ok_steps > 0 && live.update_since_ok && (!rec.reset || fallback) {
+                                sum.nontrivial = true;
+                            }
+                            live.ok_steps += 1;
+                            live.update_since_ok = false;
+                            last_ok = Some((sess, serial));
+                        }
+                    }
+                }
+            }
+        }
+        drop(live);
+        drop(tx);
+        server_task.abort();
+        Ok(sum)
+    });
+    let sum = r?;
+    for (i, l) in ["v0", "v1", "v2"].iter().enumerate() {
+        obs.label_if(sum.versions[i], l);
+    }
+    obs.label_if(sum.downgrade, "downgrade");
+    obs.label_if(sum.diff, "diff");
+    obs.label_if(sum.initial_reset, "reset");
+    obs.label_if(sum.fallback, "fallback");
+    obs.label_if(sum.wrap, "wrap");
+    obs.label_if(sum.notify_woken, "notify-woken");
+    obs.label_if(sum.notify_during_step, "notify-during-step");
+    obs.label_if(sum.timer_woken, "timer-woken");
+    obs.label_if(sum.err_step, "err-step");
+    obs.label_if(sum.mid_fired, "mid-response-update");
+    obs.label_if(sum.ok_steps >= 2, "two-ok-steps");
+    obs.evals(sum.steps.saturating_sub(1) as u64);
+    obs.nontrivial_if(sum.nontrivial);
+    Ok(())
+}
+
+//------------ strategy ---------------------------------------------------------------------
+
+fn conn_strategy() -> BoxedStrategy<Conn> {
+    (
+        0u8..=2,
+        prop_oneof![
+            3 => Just(InitState::None),
+            4 => Just(InitState::Last),
+            3 => (1u8..6).prop_map(InitState::Stale),
+            1 => Just(InitState::Foreign),
+            1 => (1u8..4).prop_map(InitState::Future),
+        ],
+        prop_oneof![6 => Just(2u8), 2 => Just(1u8), 2 => Just(0u8)],
+        prop_oneof![1 => 16u16..64, 2 => 64u16..1024, 3 => Just(u16::MAX)],
+    )
+        .prop_map(|(initial_version, state, cap, bufcap)| Conn { initial_version, state, cap, bufcap })
+        .boxed()
+}
+
+fn op_strategy() -> BoxedStrategy<Op> {
+    let deltas = prop::collection::vec(strat::delta(), 1..4);
+    prop_oneof![
+        30 => (deltas.clone(), prop::option::weighted(0.4, strat::timing())).prop_map(|(deltas, timing)| Op::Update { deltas, timing }),
+        10 => Just(Op::Notify),
+        42 => (
+            prop::option::weighted(0.2, (0u8..6, deltas)),
+            prop::option::weighted(0.15, prop_oneof![
+                3 => prop::sample::select(vec![0u32, 1, 2, 3, 600, 3599, 3600, 3601, 86399, 86400, 86401]),
+                1 => 0u32..100_000,
+            ]),
+        ).prop_map(|(mid, notify_after)| Op::ClientStep { mid, notify_after }),
+        10 => conn_strategy().prop_map(Op::NewConnection),
+        2 => prop::bool::weighted(0.6).prop_map(Op::SetReady),
+    ]
+    .boxed()
+}
+
+fn case_strategy(_: Tier) -> BoxedStrategy<Case> {
+    (
+        any::<u16>(),
+        prop_oneof![
+            3 => (0u32..12).prop_map(|k| u32::MAX - k),
+            2 => prop::sample::select(vec![0u32, 1, 0x7FFF_FFFF, 0x8000_0000]),
+            2 => any::<u32>(),
+        ],
+        0u8..=5,
+        any::<bool>(),
+        prop::collection::vec(strat::item(), 0..10),
+        strat::timing(),
+        conn_strategy(),
+        prop::collection::vec(op_strategy(), 1..40),
+    )
+        .prop_map(|(session, start_serial, retention, flip, initial, timing, first, ops)| Case {
+            session, start_serial, retention, flip, initial, timing, first, ops,
+        })
+        .boxed()
+}
 
 pub fn property() -> Property {
-    Property { id: "C06", rule: "", assumptions: vec![], subs: vec![] }
+    Property {
+        id: "C06",
+        rule: RULE,
+        assumptions: vec![
+            "single-threaded scheduler with paused clock; source updates happen between steps or, for mid-response updates, inside the source's own iterator",
+            "a client created with an initial state holds the source's data for that state restricted to the version it will negotiate (documented precondition of Client::new)",
+            "after a failed step the connection is abandoned (as Client::run does) and the next step reconnects with the last verified state",
+            "timing values stay within the ranges of RFC 8210 section 6; mid-response updates do not change timing",
+        ],
+        subs: vec![PropSub {
+            name: "histories",
+            strategy: case_strategy,
+            cases: |t| t.pick(150_000, 3_000_000),
+            run: run_history,
+            floors: &[("v0", 0.15), ("v1", 0.15), ("v2", 0.15), ("downgrade", 0.10), ("fallback", 0.10), ("wrap", 0.05), ("diff", 0.2)],
+        }
+        .boxed()],
+    }
 }
